@@ -102,6 +102,24 @@ func init() {
 	}
 }
 
+func init() {
+	engines["daemon"] = engineDef{
+		gen: func(prop string, seed uint64, tier string) any { return GenDaemon(prop, seed, tier) },
+		decode: func(b []byte) (any, error) {
+			sc := new(DaemonScenario)
+			return sc, json.Unmarshal(b, sc)
+		},
+		run: func(t *testing.T, sc any, dump io.Writer) RunResult { return RunDaemon(t, sc.(*DaemonScenario), dump) },
+		shrink: func(sc any) []any {
+			var out []any
+			for _, c := range ShrinkDaemon(sc.(*DaemonScenario)) {
+				out = append(out, c)
+			}
+			return out
+		},
+	}
+}
+
 func violOf(res RunResult, prop, oracle string) *Violation {
 	for i := range res.Violations {
 		v := &res.Violations[i]
